@@ -50,8 +50,10 @@ year = 31557600 * second = a
 degC = second; offset: 5 = celsius
 """.strip().splitlines()
 
-ALPHA_T = ["Meter", "meter", "megameter", "kilomegameter", "ms", "min", "mins", "kilometers", "ks", "kilosecond", "Ma", "megayear", "glass", "glas", "xyzzy", "kilodegC", "inchs", "ins"]
-DEFINES_T = ["ms = 3 * meter", "kilofoo = 5 * meter = kf", "megameter = 9 * second"]
+ALPHA_T = ["Meter", "meter", "megameter", "kilomegameter", "ms", "min", "mins", "kilometers", "ks", "kilosecond", "Ma", "megayear", "glass", "glas", "xyzzy", "kilodegC", "inchs", "ins", "kilometros", "hectometer"]
+# the last two give a reading to strings that had none until then (kilometros, hectometer) WITHOUT defining a unit:
+# a lookup that failed before them must succeed after them
+DEFINES_T = ["ms = 3 * meter", "kilofoo = 5 * meter = kf", "megameter = 9 * second", "@alias meter = metro", "hecto- = 100 = h-"]
 ALPHA_D = ["Meter", "megameter", "kilomegameter", "ms", "min", "mins", "kilometers", "Gs", "Pa", "petayear", "dB", "decibyte", "xyzzy", "cm", "centimeter"]
 DEFINES_D = ["ms = 3 * meter", "megameter = 9 * second"]
 
@@ -577,3 +579,4 @@ MANIFEST = {
 }
 MANIFEST["text"] += ' A reading of the whole string (name, symbol, alias, prefixed) is preferred over a plural reading.'
 MANIFEST["text"] += ' The in operator never accepts a string that every lookup refuses (prefixed offset / logarithmic units).'
+MANIFEST['text'] += ' The generated-registry histories include an @alias line and a new prefix that give a reading to strings that had none (a lookup that failed before them must succeed after them).'
